@@ -18,4 +18,7 @@ def jobs(tier):
             J.append(dict(id='dec_%s_ne%d' % (sn, ne), harness='h_dec_seq', props=['C17'], unwind=8, defs=dict(SEQ=sq, NE=ne), timeout=300, mem_gb=4, desc='decode_traits<std::%s<uint16_t>>: elements in order, each exact' % sn, bound='arrays of %d scalar elements (uint64/int64/bool, any payload)' % ne))
     for sz in (0, 1, 2, 3):
         J.append(dict(id='route_array2_sz%d' % sz, harness='h_route_array2', props=['C17'], unwind=8, defs=dict(SZ=sz), timeout=300, desc='std::array<int,2>: streaming route and basic_json route agree (accept/reject, value)', bound='arrays of %d elements, each an int32 or null' % sz))
+    for tn, bits, sg in (('i8', 8, 1), ('i16', 16, 1), ('i32', 32, 1), ('i64', 64, 1), ('u8', 8, 0), ('u16', 16, 0), ('u32', 32, 0), ('u64', 64, 0)):
+        J.append(dict(id='enc_int_%s' % tn, harness='h_enc_int', props=['C17'], unwind=8, defs=dict(TNAME=tn, TBITS=bits, TSIGNED=sg), timeout=300, desc='encode_traits<%s>: one integer event that denotes the C++ value (the streaming route writes the same number as the basic_json route)' % tn, bound='all values of the type'))
+    J.append(dict(id='enc_pair', harness='h_enc_pair', props=['C17'], unwind=8, defs={}, timeout=300, desc='encode_traits<std::pair<uint64_t,int64_t>>: array of exactly two elements, in order, denoting their values', bound='all 2^128 pairs'))
     return J
